@@ -62,7 +62,7 @@ type wlGen struct {
 	fn          *ssa.Function
 	recv        *ssa.Alloc
 	loops       []*core.Loop
-	capMap      *ssa.MakeMap
+	capMap      ssa.Value // map[int]bool or []bool holding the positions to capitalise
 	wordDraw    *ssa.Call
 	wordViaPick bool
 	oneDraw     *ssa.Call
@@ -170,6 +170,10 @@ func resolveWLGen(p *core.Program) (*wlGen, string) {
 			if x.Type().String() == "map[int]bool" {
 				g.capMap = x
 			}
+		case *ssa.MakeSlice:
+			if x.Type().String() == "[]bool" {
+				g.capMap = x
+			}
 		case *ssa.Call:
 			if ta, ok := tokenAppendOf(x); ok {
 				g.appends = append(g.appends, ta)
@@ -195,6 +199,52 @@ func resolveWLGen(p *core.Program) (*wlGen, string) {
 		}
 	}
 	return g, ""
+}
+
+// capUpdate: in sets capWords[key] = val (map update or slice element store).
+func (g *wlGen) capUpdate(in ssa.Instruction) (key, val ssa.Value, ok bool) {
+	switch x := in.(type) {
+	case *ssa.MapUpdate:
+		if x.Map == g.capMap {
+			return x.Key, x.Value, true
+		}
+	case *ssa.Store:
+		if ia, isIA := x.Addr.(*ssa.IndexAddr); isIA && ia.X == g.capMap {
+			return ia.Index, x.Val, true
+		}
+	}
+	return nil, nil, false
+}
+
+// capRead: v is capWords[idx] (map lookup or slice element load).
+func (g *wlGen) capRead(v ssa.Value) (idx ssa.Value, ok bool) {
+	switch x := v.(type) {
+	case *ssa.Lookup:
+		if x.X == g.capMap && !x.CommaOk {
+			return x.Index, true
+		}
+	case *ssa.UnOp:
+		if ia, isIA := x.X.(*ssa.IndexAddr); isIA && ia.X == g.capMap {
+			return ia.Index, true
+		}
+	}
+	return nil, false
+}
+
+// capUpdates lists every update of the capitalisation set.
+func (g *wlGen) capUpdates() []ssa.Instruction {
+	var out []ssa.Instruction
+	core.Instrs(g.fn, func(in ssa.Instruction) {
+		if _, _, ok := g.capUpdate(in); ok {
+			out = append(out, in)
+		}
+	})
+	return out
+}
+
+func isTrueConst(v ssa.Value) bool {
+	c, ok := v.(*ssa.Const)
+	return ok && c.Value != nil && c.Value.Kind() == constant.Bool && constant.BoolVal(c.Value)
 }
 
 func soleUse(v ssa.Value) (ssa.Instruction, int) {
@@ -273,11 +323,18 @@ func runC04(p *core.Program, r *core.Report) {
 		cv, isConv := b.(*ssa.Convert)
 		r.Check(isConv && recipeField(cv.X, "Length") && isFieldLoadOf(cv.X), "R4.1", name, "'one' draw bound is exactly uint32(Length)", pos, core.Describe(b))
 		use, n := soleUse(g.oneDraw)
-		mu, isMU := use.(*ssa.MapUpdate)
-		okUse := n == 1 && isMU && mu.Map == ssa.Value(g.capMap) && core.Strip(mu.Key) == ssa.Value(g.oneDraw)
-		if okUse {
-			c, isC := mu.Value.(*ssa.Const)
-			okUse = isC && c.Value != nil && c.Value.Kind() == constant.Bool && constant.BoolVal(c.Value)
+		okUse := false
+		if n == 1 {
+			upd := use
+			if ia, isIA := use.(*ssa.IndexAddr); isIA {
+				// slice form: the index address has exactly one use, the store
+				if st, n2 := soleUse(ia); n2 == 1 {
+					upd = st
+				}
+			}
+			if key, val, isUpd := g.capUpdate(upd); isUpd {
+				okUse = core.Strip(key) == ssa.Value(g.oneDraw) && isTrueConst(val)
+			}
 		}
 		r.Check(okUse, "R4.1", name, "the drawn position is used once: capWords[pos] = true", pos, fmt.Sprintf("%d uses", n))
 		r.Check(core.InnermostLoop(g.loops, g.oneDraw.Block()) == nil, "R4.2", name, "'one' scheme draws once (outside any loop)", pos, "")
@@ -322,8 +379,8 @@ func runC04(p *core.Program, r *core.Report) {
 		if okLoop && isB {
 			for b := range l.Blocks {
 				for _, in := range b.Instrs {
-					mu, ok := in.(*ssa.MapUpdate)
-					if !ok || mu.Map != ssa.Value(g.capMap) || mu.Key != ssa.Value(cnt.Phi) {
+					key, _, ok := g.capUpdate(in)
+					if !ok || key != ssa.Value(cnt.Phi) {
 						continue
 					}
 					ng := 0
@@ -527,13 +584,17 @@ func checkTitleIffCap(p *core.Program, r *core.Report, g *wlGen, rule string) {
 	var word, title ssa.Value
 	var titleIdx int
 	for i, e := range phi.Edges {
-		if c, ok := e.(*ssa.Call); ok && core.CallName(c) == "strings.Title" {
-			title, titleIdx = c, i
+		if _, isT := titleCallArg(e); isT {
+			title, titleIdx = e, i
 		} else {
 			word = e
 		}
 	}
-	okT := title != nil && word != nil && title.(*ssa.Call).Call.Args[0] == word
+	okT := title != nil && word != nil
+	if okT {
+		x, _ := titleCallArg(title)
+		okT = x == word
+	}
 	r.Check(okT, rule, name, "the atom is the drawn word or exactly its Title form", pos, "")
 	if !okT {
 		return
@@ -550,7 +611,7 @@ func checkTitleIffCap(p *core.Program, r *core.Report, g *wlGen, rule string) {
 	pred := phi.Block().Preds[titleIdx]
 	okG := false
 	for _, gd := range core.Guards(pred) {
-		if lk, ok := gd.Cond.(*ssa.Lookup); ok && gd.Pos && lk.X == ssa.Value(g.capMap) && g.main != nil && lk.Index == ssa.Value(g.main.Phi) {
+		if idx, ok := g.capRead(gd.Cond); ok && gd.Pos && g.main != nil && idx == ssa.Value(g.main.Phi) {
 			okG = true
 		}
 	}
@@ -599,6 +660,11 @@ func runC05(p *core.Program, r *core.Report) {
 	for i, e := range g.tsPhi.Edges {
 		if !c.Loop.Blocks[g.tsPhi.Block().Preds[i]] {
 			okE := core.IsNilConst(e)
+			if mk, ok := e.(*ssa.MakeSlice); ok {
+				if z, isC := core.ConstInt(mk.Len); isC && z == 0 {
+					okE = true
+				}
+			}
 			if sl, ok := e.(*ssa.Slice); ok {
 				if al, ok := sl.X.(*ssa.Alloc); ok {
 					if at, ok := al.Type().Underlying().(*types.Pointer).Elem().Underlying().(*types.Array); ok && at.Len() == 0 {
@@ -757,64 +823,81 @@ func checkCapSchemes(p *core.Program, r *core.Report, g *wlGen) {
 		r.Fail("R5.2", name, "capitalisation map", p.Pos(g.fn.Pos()), "not found")
 		return
 	}
-	// every update of the map, classified by the scheme guarding it
-	bySch := map[string][]*ssa.MapUpdate{}
-	for _, ref := range core.Referrers(g.capMap) {
-		mu, ok := ref.(*ssa.MapUpdate)
-		if !ok {
-			continue
-		}
-		s := schemeGuard(g, mu.Block())
+	// every update of the set, classified by the scheme guarding it
+	type upd struct {
+		in       ssa.Instruction
+		key, val ssa.Value
+	}
+	bySch := map[string][]upd{}
+	for _, in := range g.capUpdates() {
+		key, val, _ := g.capUpdate(in)
+		s := schemeGuard(g, in.Block())
 		if s == "" {
 			// inside a loop guarded at its header's dominators
-			if l := core.InnermostLoop(g.loops, mu.Block()); l != nil {
+			if l := core.InnermostLoop(g.loops, in.Block()); l != nil {
 				s = schemeGuard(g, l.Header)
 			}
 		}
-		bySch[s] = append(bySch[s], mu)
-		c, isC := mu.Value.(*ssa.Const)
-		r.Check(isC && c.Value != nil && c.Value.Kind() == constant.Bool && constant.BoolVal(c.Value), "R5.2", name, "capitalisation map entries are only ever set to true", p.InstrPos(mu), "")
+		bySch[s] = append(bySch[s], upd{in, key, val})
+		r.Check(isTrueConst(val), "R5.2", name, "capitalisation entries are only ever set to true", p.InstrPos(in), "")
 	}
 	for s, mus := range bySch {
 		if s == "" {
 			for _, mu := range mus {
-				r.Fail("R5.2", name, "capitalisation set outside any scheme case", p.InstrPos(mu), "unknown or 'none' schemes must capitalise nothing")
+				r.Fail("R5.2", name, "capitalisation set outside any scheme case", p.InstrPos(mu.in), "unknown or 'none' schemes must capitalise nothing")
 			}
 		}
 	}
 	if mus := bySch["first"]; len(mus) == 1 {
-		k, isC := core.ConstInt(mus[0].Key)
-		r.Check(isC && k == 0 && core.InnermostLoop(g.loops, mus[0].Block()) == nil, "R5.2", name, "scheme first capitalises exactly position 0", p.InstrPos(mus[0]), core.Describe(mus[0].Key))
+		k, isC := core.ConstInt(mus[0].key)
+		r.Check(isC && k == 0 && core.InnermostLoop(g.loops, mus[0].in.Block()) == nil, "R5.2", name, "scheme first capitalises exactly position 0", p.InstrPos(mus[0].in), core.Describe(mus[0].key))
 	} else {
-		r.Fail("R5.2", name, "scheme first capitalises exactly position 0", p.Pos(g.fn.Pos()), fmt.Sprintf("%d map updates under CSFirst", len(mus)))
+		r.Fail("R5.2", name, "scheme first capitalises exactly position 0", p.Pos(g.fn.Pos()), fmt.Sprintf("%d updates under CSFirst", len(mus)))
 	}
 	if mus := bySch["all"]; len(mus) == 1 {
 		mu := mus[0]
-		l := core.InnermostLoop(g.loops, mu.Block())
+		l := core.InnermostLoop(g.loops, mu.in.Block())
 		ok := false
 		if l != nil {
-			if cnt, isCnt := core.AsCounted(l); isCnt && cnt.Step == 1 && cnt.Op == token.LSS && recipeField(cnt.Bound, "Length") && mu.Key == ssa.Value(cnt.Phi) {
+			if cnt, isCnt := core.AsCounted(l); isCnt && cnt.Step == 1 && cnt.Op == token.LSS && recipeField(cnt.Bound, "Length") && mu.key == ssa.Value(cnt.Phi) {
 				z, isC := core.ConstInt(cnt.Init)
 				ok = isC && z == 0
 				for _, la := range l.Latch {
-					if !mu.Block().Dominates(la) {
+					if !mu.in.Block().Dominates(la) {
+						ok = false
+					}
+				}
+			}
+			// a range over the []bool set itself is the same sweep
+			if ri, isR := core.AsRange(l); isR && ri.Kind == "slice" && ri.X == g.capMap && mu.key == ri.Index {
+				ok = true
+				for _, la := range l.Latch {
+					if !mu.in.Block().Dominates(la) {
 						ok = false
 					}
 				}
 			}
 		}
-		r.Check(ok, "R5.2", name, "scheme all capitalises every position (full counted sweep setting key i)", p.InstrPos(mu), "")
+		r.Check(ok, "R5.2", name, "scheme all capitalises every position (full sweep setting key i)", p.InstrPos(mu.in), "")
 	} else {
-		r.Fail("R5.2", name, "scheme all capitalises every position", p.Pos(g.fn.Pos()), fmt.Sprintf("%d map updates under CSAll", len(mus)))
+		r.Fail("R5.2", name, "scheme all capitalises every position", p.Pos(g.fn.Pos()), fmt.Sprintf("%d updates under CSAll", len(mus)))
 	}
 	r.Check(len(bySch["one"]) == 1, "R5.2", name, "scheme one sets exactly one key (the drawn position, C04)", p.Pos(g.fn.Pos()), fmt.Sprint(len(bySch["one"])))
 	r.Check(len(bySch["random"]) == 1, "R5.2", name, "scheme random sets key i under its coin (C04)", p.Pos(g.fn.Pos()), fmt.Sprint(len(bySch["random"])))
-	// the map is only read at capWords[i] in the assembly loop
-	for _, ref := range core.Referrers(g.capMap) {
-		if lk, ok := ref.(*ssa.Lookup); ok {
-			r.Check(g.main != nil && lk.Index == ssa.Value(g.main.Phi), "R5.2", name, "the map is consulted at the current position", p.InstrPos(lk), "")
-		}
+	// a []bool set must cover all positions
+	if mk, isSl := g.capMap.(*ssa.MakeSlice); isSl {
+		r.Check(recipeField(mk.Len, "Length"), "R5.2", name, "the []bool capitalisation set has one entry per position (make([]bool, Length))", p.InstrPos(mk), core.Describe(mk.Len))
 	}
+	// the set is only read at capWords[i] in the assembly loop
+	core.Instrs(g.fn, func(in ssa.Instruction) {
+		v, isV := in.(ssa.Value)
+		if !isV {
+			return
+		}
+		if idx, ok := g.capRead(v); ok {
+			r.Check(g.main != nil && idx == ssa.Value(g.main.Phi), "R5.2", name, "the set is consulted at the current position", p.InstrPos(in), "")
+		}
+	})
 }
 
 func checkAccessors(p *core.Program, r *core.Report, atomV, sepV int64) {
